@@ -404,7 +404,7 @@ def impl_env():
     return env
 
 
-def _run_sharded(cmd_prefix, cases, shards, timeout, extra_env=None):
+def _run_sharded(cmd_prefix, cases, shards, timeout, extra_env=None, mem_limit=None):
     if not cases:
         return []
     parts = _shards(cases, shards)
@@ -419,7 +419,8 @@ def _run_sharded(cmd_prefix, cases, shards, timeout, extra_env=None):
         outp = os.path.join(d, 'out_%d_%d.json' % (os.getpid(), i))
         with open(inp, 'w') as f:
             json.dump(part, f)
-        p = subprocess.Popen(cmd_prefix + [inp, outp], env=env, stdout=subprocess.PIPE, stderr=subprocess.STDOUT, text=True, cwd=d)
+        p = subprocess.Popen(cmd_prefix + [inp, outp], env=env, stdout=subprocess.PIPE, stderr=subprocess.STDOUT, text=True, cwd=d,
+                             preexec_fn=(lambda: _limit_memory(mem_limit)) if mem_limit else None)
         procs.append((p, inp, outp, part))
     res = []
     err = None
@@ -448,9 +449,16 @@ def _run_sharded(cmd_prefix, cases, shards, timeout, extra_env=None):
     return res
 
 
-def run_impl_py(module, cases, shards=NCPU, timeout=1800, extra_env=None):
+def _limit_memory(nbytes):
+    """address-space limit of a driver process (optional): a defect that makes a query grow a list for ever then ends as a
+    MemoryError inside the query instead of exhausting the machine"""
+    import resource
+    resource.setrlimit(resource.RLIMIT_AS, (nbytes, nbytes))
+
+
+def run_impl_py(module, cases, shards=NCPU, timeout=1800, extra_env=None, mem_limit=None):
     drv = os.path.join(VERIF, 'harness', 'impl', 'py_driver.py')
-    return _run_sharded([VENV_PY, drv, module], cases, shards, timeout, extra_env)
+    return _run_sharded([VENV_PY, drv, module], cases, shards, timeout, extra_env, mem_limit)
 
 
 def run_impl_js(module, cases, shards=NCPU, timeout=1800, extra_env=None):
